@@ -359,7 +359,13 @@ func (w *Worker) conform(c appCase, r AppRun) {
 			w.Notes["conformance_equal_modulo_row_order"]++
 			return
 		}
-		fatalHarness("conformance: in-process run and real binary disagree for `%s`\n--- in-process\n%s\n--- binary (exit %d)\n%s\n%s", c.shell(), r.String(), b.Code, b.Stdout, b.Stderr)
+		// not fatal: on a changed tree the program itself may differ from run to run (map order, leaked
+		// state). It is reported as a harness inconsistency only if the run ends without a confirmed violation.
+		if w.Nondet == "" {
+			w.Nondet = fmt.Sprintf("conformance: in-process run and real binary disagree for `%s`\n--- in-process\n%s\n--- binary (exit %d)\n%s\n%s", c.shell(), tailStr(r.String(), 1500), b.Code, tailStr(b.Stdout, 1500), tailStr(b.Stderr, 500))
+		}
+		w.Notes["conformance_mismatches"]++
+		return
 	}
 	w.Notes["conformance_runs_real_binary"]++
 }
